@@ -57,6 +57,10 @@ UNIT = {
                 # otherwise the body runs for the values in order: the k-th run right after the k-th value was assigned, in a
                 # Loop frame on top of the caller's stack; at most one run per value
                 M1 + '.values is Some ==> ' + NEW + ' <= (' + VALS + ').len() && (forall|k: int| 0 <= k < ' + NEW + ' ==> run_ok(#[trigger] ' + M1 + '.runs[' + M0 + '.runs.len() + k], ' + M0 + ', ' + VALS + ', old(env).verif_stack@, k))',
+                # `$?` at every point: the first run of the body starts with the `$?` the loop was entered with (the status of the
+                # last command before the loop, or of the last command substitution in its words), every later run with the `$?`
+                # the previous run left
+                M1 + '.values is Some ==> (forall|k: int| 0 <= k < ' + NEW + ' ==> (#[trigger] ' + M1 + '.runs[' + M0 + '.runs.len() + k]).status_before == (if k == 0 { ' + M1 + '.values_status->0 } else { ' + M1 + '.runs[' + M0 + '.runs.len() + k - 1].status_after }))',
                 # every run but the last ended normally or with a `continue` for this loop
                 M1 + '.values is Some ==> (forall|k: int| 0 <= k < ' + NEW + ' - 1 ==> goes_on((#[trigger] ' + M1 + '.runs[' + M0 + '.runs.len() + k]).result))',
                 # no value at all: status 0, nothing runs ("zero if none")
@@ -81,6 +85,8 @@ UNIT = {
                     'forall|k: int| 0 <= k < ' + KK + ' ==> run_ok(#[trigger] env.env.mon@.runs[verif_m0.runs.len() + k], verif_m0, verif_vals, verif_stack0, k)',
                     'forall|k: int| 0 <= k < ' + KK + ' - 1 ==> goes_on((#[trigger] env.env.mon@.runs[verif_m0.runs.len() + k]).result)',
                     KK + ' > 0 ==> env.env.exit_status == env.env.mon@.runs.last().status_after',
+                    'env.env.mon@.values_status is Some', KK + ' == 0 ==> env.env.exit_status == env.env.mon@.values_status->0',
+                    'forall|k: int| 0 <= k < ' + KK + ' ==> (#[trigger] env.env.mon@.runs[verif_m0.runs.len() + k]).status_before == (if k == 0 { env.env.mon@.values_status->0 } else { env.env.mon@.runs[verif_m0.runs.len() + k - 1].status_after })',
                 ],
                 'invariant_except_break': [
                     KK + ' > 0 ==> goes_on(env.env.mon@.runs.last().result)',
